@@ -556,6 +556,9 @@ async def schedule(ex, spawn, settle):
             ex.trace.append(("spawn", i, c.up, c.down, c.mode, c.nchunks))
         await settle()
     released = 0
+    import time as real_time
+    t0 = real_time.monotonic()
+    wall_limit = cfg.get("wall_limit", 30.0)
     while steps < cfg.get("max_steps", 200):
         steps += 1
         opts = []
@@ -701,6 +704,10 @@ async def schedule(ex, spawn, settle):
     ex.inconclusive = False
     for drain_i in range(cfg.get("drain_steps", 30000)):
         progressed = False
+        if real_time.monotonic() - t0 > wall_limit:
+            ex.inconclusive = True          # real-time budget of one schedule: no verdict on completion
+            ex.wall_limited = True
+            break
         for c in ex.callers:
             if c.state == "holding":
                 if c.mode == "abandon":
@@ -836,7 +843,7 @@ def explore(ctx, rec, pid, profile, n_quick, n_thorough, want_prefixes, runtimes
         rec.dist[f"{pid}:schedules:{rt}"] += 1
         rec.dist[f"{pid}:steps"] += len(ex.trace)
         if ex.inconclusive:
-            rec.dist[f"{pid}:inconclusive(step budget)"] += 1
+            rec.dist[f"{pid}:inconclusive({'wall' if getattr(ex, 'wall_limited', False) else 'step'} budget)"] += 1
         for t in ex.trace:
             rec.dist[f"{pid}:act:{t[0]}"] += 1
         for c in ex.callers:
